@@ -27,6 +27,9 @@ def main():
     for name in names:
         d = os.path.join(ROOT, "seeded", name)
         meta = json.load(open(os.path.join(d, "meta.json")))
+        if meta.get("superseded"):
+            print(f"{name}: superseded (not run): {meta['superseded'][:90]}...")
+            continue
         pid = meta["breaks_property"]
         t0 = time.time()
         rc, o = sh(f"git apply {d}/patch.diff", cwd=REPO)
